@@ -271,7 +271,7 @@ def build_proxy(u, px, pc, hc, ps):
                       pre_body="broadcast use axiom_to_string_string, axiom_to_string_ipaddr;",
                       contract="""
         ensures r matches Ok(c) ==> identity_from_record(c, *entry, client_ip, client_port),  // @C07.from_audit_entry.identity_is_the_records
-                r matches Ok(c) ==> c.runAsElevated == (entry.is_admin == 1),  // @C03.from_audit_entry.elevated_only_for_the_value_the_hook_writes_for_root
+                r matches Ok(c) ==> c.runAsElevated == (entry.is_admin == 1),  // @C03+C01+C05.from_audit_entry.elevated_only_for_the_value_the_hook_writes_for_root
 """)
         build_conn(u, pc, hc)
         build_server_slices(u, ps)
